@@ -102,6 +102,9 @@ func H11_Manager() {
 		k = verif.Size("k", 1, 3)
 	}
 	bidir := fault == 0 && verif.Param("bidir", 0) == 1 && verif.Bool("bidir")
+	// a second bundle sent on the same session in the same direction at the same time: the segments of the two
+	// transfers interleave on the wire (each Send feeds the outgoing channel from its own goroutine)
+	same := fault == 0 && !bidir && verif.Bool("same")
 
 	aIn, aOut := make(chan msgs.Message, 4), make(chan msgs.Message, 4)
 	bIn, bOut := make(chan msgs.Message, 4), make(chan msgs.Message, 4)
@@ -110,15 +113,46 @@ func H11_Manager() {
 	stop := make(chan struct{})
 	go func() { // a -> b: data segments (and, with bidir, a's acknowledgements)
 		segs := 0
+		// with two transfers in the same direction the link delivers: the first segment of the multi-segment transfer
+		// that started first, then what the other transfer has sent, then the rest - per-transfer order is kept, and
+		// the START of one transfer falls between two segments of the other
+		var held []msgs.Message
+		var heldID uint64
+		holding, released := false, false
+		var flush <-chan time.Time
 		for {
 			select {
 			case <-stop:
 				return
+			case <-flush: // the other transfer did not show up: go on
+				for _, h := range held {
+					bIn <- h
+				}
+				held, holding, released, flush = nil, false, true, nil
 			case msg := <-aOut:
-				if _, isSeg := msg.(*msgs.DataTransmissionMessage); isSeg {
+				if seg, isSeg := msg.(*msgs.DataTransmissionMessage); isSeg {
 					segs++
 					if fault == 3 && segs >= k {
 						continue // lost
+					}
+					if same && !released {
+						switch {
+						case !holding && seg.Flags&msgs.SegmentStart != 0 && seg.Flags&msgs.SegmentEnd == 0:
+							holding, heldID, held = true, seg.TransferId, append(held, msg)
+							flush = time.After(time.Second)
+							continue
+						case holding && seg.TransferId == heldID:
+							held = append(held, msg)
+							continue
+						case holding:
+							bIn <- held[0]
+							bIn <- msg
+							for _, h := range held[1:] {
+								bIn <- h
+							}
+							held, holding, released, flush = nil, false, true, nil
+							continue
+						}
 					}
 				}
 				bIn <- msg
@@ -174,15 +208,47 @@ func H11_Manager() {
 			close(backDone)
 		}()
 	}
+	var errSame error
+	sameDone := make(chan struct{})
+	var want3 []byte
+	if same {
+		b3, err3 := bpv7.Builder().Source("dtn://a/").Destination("dtn://b/").CreationTimestampEpoch().Lifetime("1h").
+			BundleAgeBlock(1).PayloadBlock([]byte("a second, somewhat longer bundle on the same session")).Build()
+		verif.Assume(err3 == nil)
+		want3 = encBundle(b3)
+		go func() {
+			errSame = A.Send(b3)
+			close(sameDone)
+		}()
+	}
 	sendErr := A.Send(b)
 	if bidir {
 		<-backDone
+	}
+	if same {
+		<-sameDone
 	}
 	time.Sleep(time.Millisecond) // let the receiving side finish handing up
 	close(stop)
 	_ = A.Close()
 	_ = B.Close()
 
+	if same {
+		verif.Assert(sendErr == nil && errSame == nil, "two transfers in the same direction at the same time both succeed")
+		n1, n3 := 0, 0
+		for _, g := range gotB {
+			if bytes.Equal(g, want) {
+				n1++
+			} else if bytes.Equal(g, want3) {
+				n3++
+			} else {
+				verif.Assert(false, "the receiver hands up nothing but the bundles that were sent")
+			}
+		}
+		verif.Assert(n1 == 1 && n3 == 1, "each of the two bundles is handed up exactly once, identical to what was sent")
+		verif.Reach("end")
+		return
+	}
 	verif.Assert(len(gotB) <= 1, "the receiver hands up at most one bundle per transfer")
 	if len(gotB) == 1 {
 		verif.Assert(bytes.Equal(gotB[0], want), "the receiver hands up exactly the bundle that was sent")
